@@ -296,6 +296,53 @@ class Stack:
             rows.append(row)
         return rows
 
+    def other(self):
+        """a stack of exactly the same TYPES with other configuration VALUES in every layer that has any (boxes pushed
+        outwards, other defaults, matrices, constants and extents): what an existing field of this type may hold when
+        another one is assigned over it.  Deterministic in the stack's own parameters."""
+        import copy
+        o = copy.deepcopy(self)
+        rng = random.Random("other:" + repr([(l["kind"], l.get("ext"), l.get("lo"), l.get("matrix")) for l in self.layers]) + str(self.salt))
+        N = self.n
+        ext = None
+        for idx in range(len(o.layers) - 1, -1, -1):
+            l = o.layers[idx]
+            k = l["kind"]
+            if k == "array" and len(o.layers) == 1:
+                l["len"] = l["len"] + 1 + rng.randrange(0, 9)
+            elif k == "constant":
+                l["value"] = [v + 1 + rng.randrange(0, 3) for v in l["value"]]
+            elif k in ORDER:
+                ext = [e + 1 + rng.randrange(0, 3) for e in l["ext"]]   # strictly larger on every axis
+                l["ext"] = ext
+                below = o.layers[idx + 1]
+                if k == "strided":
+                    ln = 1
+                    for e in ext:
+                        ln *= e
+                else:
+                    side = 1
+                    while side < max(ext):
+                        side *= 2
+                    ln = side ** N
+                if below["kind"] == "array":
+                    below["len"] = ln
+            elif k in ("clamp", "backup"):
+                t = l["in"][0]
+                step = 0.25 if t in REALS else 1
+                # a wider box on the upper side (and a different lower bound where the type allows one)
+                l["hi"] = [h + step * (1 + rng.randrange(0, 8)) + (8 if not ext else 0) for h in l["hi"]]
+                l["lo"] = [max(0, a - step * rng.randrange(0, 3)) if t in ("unsigned", "size_t") else a - step * rng.randrange(0, 3) for a in l["lo"]]
+                if k == "backup":
+                    l["default"] = [d + 7 + rng.randrange(0, 3) for d in l["default"]]
+            elif k == "affine":
+                t = l["in"][0]
+                m = self._matrix(rng, t, len(l["matrix"]))
+                if m == l["matrix"]:
+                    m[0][-1] = m[0][-1] + 1
+                l["matrix"] = m
+        return o
+
     # -------------------------------------------------------------- derived stacks
     def retype(self):
         """recompute in/out kinds (inner -> outer) from the stored parameters; sets self.ok"""
@@ -716,6 +763,9 @@ class Stack:
         L.append("    static const char * type_string() { return %s; }" % cstr(self.layers[0]["cxx"] if d == 1 else self.full_type()))
         L.append("    static auto pack() { return covfie::make_parameter_pack(%s); }" % ", ".join(self.cfg_expr(i) for i in range(d)))
         L.append("    static field_t make() { return field_t(pack()); }")
+        oth = self.other()
+        L.append("    // a field of the same type holding OTHER configuration values in every layer (boxes, defaults, matrices, extents)")
+        L.append("    template <int = 0> static field_t make_other() { return field_t(covfie::make_parameter_pack(%s)); }" % ", ".join(oth.cfg_expr(i) for i in range(d)))
         L.append("    static field_t make_via_helper() { return field_t(covfie::make_parameter_pack_for<field_t>(%s)); }" % ", ".join(self.cfg_expr(i) for i in range(d)))
         reb = [self.backend_chain(i) + ".get_configuration()" for i in range(d - 1)]
         if self.has_array():
